@@ -53,6 +53,8 @@ func verifC18TimedCopy(kinds int) {
 	}
 	if len(client.writes) == 1 {
 		verifAssert("C18.timedcopy.wire-length", len(client.writes[0].data) == saltSize+addrLen+got+16)
+		// what is relayed carries the whole reply body: a reply that does not fit is dropped
+		verifAssert("C03.reply.never-truncated", len(client.writes[0].data) == saltSize+addrLen+bodyLen+16)
 		verifAssert("C18.timedcopy.to-client", client.writes[0].addr == net.Addr(clientAddr))
 		verifAssert("C18.timedcopy.metric-sizes", cm.fromTarget[0].a == int64(got) && cm.fromTarget[0].b == int64(saltSize+addrLen+got+16))
 		verifReach("C18.timedcopy.sent", true)
